@@ -70,3 +70,11 @@ Print Assumptions C14_has_cycles_exact.
 
 (* the hypotheses are satisfiable: Proofs/CBExamples.v, ex_cyc_consistent, ex_cyc_no_self_loops, ex_dag_consistent,
    ex_dag_ranked (graphs built with the model's own populate) *)
+
+(* ---------- regenerated from the source on every run (translator): cycle breaking does not read node identifiers, as its
+   model, which contains none, assumes ---------- *)
+From Coq Require Import String.
+From Autog Require Facts FactsChecks.
+Theorem C14_code_reads_no_identifier : FactsChecks.id_reads_allowed_in "internal/phase1/"%string = true.
+Proof. vm_compute. reflexivity. Qed.
+Print Assumptions C14_code_reads_no_identifier.
